@@ -47,6 +47,10 @@ Definition spec_kmer_counts (k : nat) (seqs : list (list Z)) : list Z :=
   let hs := concat (map (seq_kmers k) seqs) in
   map (fun h => countZ h hs) (arange (4 ^ Z.of_nat k)).
 
+(* a row-local streamable function without reduction: reverse complement of every DNA row (0..3 = A,C,G,T) *)
+Definition revcomp (s : list Z) : list Z := rev (map (fun c => 3 - c) s).
+Definition spec_revcomp (seqs : list (list Z)) : list (list Z) := map revcomp seqs.
+
 (* group-by: maximal runs of equal keys, in order *)
 Fixpoint runs {A} (l : list (Z * A)) : list (Z * list A) :=
   match l with
@@ -171,6 +175,10 @@ Definition chunk_lines {A} (n : Z) (cs : list (list A)) : option (list (list A))
   match cs with [] => None (* np.concatenate([]) raises *) | _ => chunk_lines_go n [] n cs end.
 
 (* ---------- streamable reductions ---------- *)
+(* streamable() without a reduction (decorators.py: `BnpStream(func(chunk) for chunk in stream)`): the function is
+   applied to every chunk and the results stay a stream of chunks *)
+Definition stream_map {A B} (f : list A -> list B) (cs : list (list A)) : list (list B) := map f cs.
+
 (* sum_and_n per chunk, then Python's sum(): 0 + r1 + r2 + ... *)
 Definition sum_and_n (c : list Z) : Z * Z := (sumZ c, len c).
 Definition pair_add (a b : Z * Z) : Z * Z := (fst a + fst b, snd a + snd b).
@@ -423,6 +431,35 @@ Definition red_mean_fixed (a b : gval) : gval :=
 (* THE SWITCH for finding C11-mean-axis0-ragged-columns: pinned code = red_mean, after fix-2 = red_mean_fixed *)
 Definition red_mean_current := red_mean.
 
+(* np.sum of the ragged values of one chromosome.  axis=None on a RunLengthRaggedArray gives the ROW sums (one per
+   window); axis=0 gives the column sums and raises on a chromosome without windows (zero-size reduction). *)
+Definition op_rowsums (a : list gval) : gval := match a with [GR rows] => GL (map sumZ rows) | _ => GErr end.
+Definition op_colsums (a : list gval) : gval :=
+  match a with
+  | [GR []] => GErr
+  | [GR rows] => GL (map fst (spec_cols rows))
+  | _ => GErr
+  end.
+(* reductions_map[np.sum] = operator.add.  On ndarrays `+` broadcasts: equal lengths add element-wise, a length-1
+   operand is added to every element of the other (also of an empty one), anything else raises. *)
+Definition red_bcast (a b : gval) : gval :=
+  match a, b with
+  | GL x, GL y =>
+      if (length x =? length y)%nat then GL (vadd x y)
+      else match x, y with
+           | [x0], _ => GL (map (Z.add x0) y)
+           | _, [y0] => GL (map (fun v => v + y0) x)
+           | _, _ => GErr
+           end
+  | _, _ => GErr
+  end.
+(* on RunLengthArrays (column sums) `+` insists on equal lengths *)
+Definition red_strict (a b : gval) : gval :=
+  match a, b with
+  | GL x, GL y => if (length x =? length y)%nat then GL (vadd x y) else GErr
+  | _, _ => GErr
+  end.
+
 Definition red_tuple (fs : list (gval -> gval -> gval)) (a b : gval) : gval :=
   match a, b with
   | GT xs, GT ys => GT (map (fun '(f, (x, y)) => f x y) (combine fs (combine xs ys)))
@@ -443,7 +480,9 @@ Inductive pipeline :=
 | PPileupHist (k lo hi : Z)     (* compute(np.histogram(pileup, bins=k, range=(lo,hi))) *)
 | PHistAndSum (k lo hi : Z)     (* compute((histogram, sum)) : ReductionNode.join *)
 | PValues            (* compute(pileup[windows]) : values under a second streamed interval set *)
-| PValuesMean0.      (* compute(pileup[windows].mean(axis=0)) *)
+| PValuesMean0       (* compute(pileup[windows].mean(axis=0)) *)
+| PValuesSum         (* compute(np.sum(pileup[windows])) *)
+| PValuesSum0.       (* compute(pileup[windows].sum(axis=0)) *)
 
 (* names stream node content is irrelevant for the dense observation; modelled as GZ index *)
 Definition names_node (n : nat) : node gval := NStream (map (fun i => GZ i) (arange (Z.of_nat n))).
@@ -466,6 +505,12 @@ Definition pipeline_graph (p : pipeline) (sizes : list Z) (a b : list (list iv))
   | PValuesMean0 =>
       (A ++ [NComp op_pileup [0%nat; 4%nat]; names_node (length sizes)] ++ intervals_nodes 7 b sizes
          ++ [NComp op_extract [5%nat; 8%nat; 9%nat]; NComp op_sum_n0 [12%nat]], 13%nat)
+  | PValuesSum =>
+      (A ++ [NComp op_pileup [0%nat; 4%nat]; names_node (length sizes)] ++ intervals_nodes 7 b sizes
+         ++ [NComp op_extract [5%nat; 8%nat; 9%nat]; NComp op_rowsums [12%nat]], 13%nat)
+  | PValuesSum0 =>
+      (A ++ [NComp op_pileup [0%nat; 4%nat]; names_node (length sizes)] ++ intervals_nodes 7 b sizes
+         ++ [NComp op_extract [5%nat; 8%nat; 9%nat]; NComp op_colsums [12%nat]], 13%nat)
   end.
 
 Definition gconcat (vs : list gval) : gval :=
@@ -481,6 +526,8 @@ Definition finish (p : pipeline) (mean_red : gval -> gval -> gval) (vs : list gv
   | PPileupHist _ _ _ => reduce1 red_hist vs
   | PHistAndSum _ _ _ => reduce1 (red_tuple [red_hist; red_add]) vs
   | PValuesMean0 => reduce1 mean_red vs
+  | PValuesSum => reduce1 red_bcast vs
+  | PValuesSum0 => reduce1 red_strict vs
   end.
 
 (* whole streamed pipeline: chunks of (chromosome id, interval) -> groupby/join -> genome walk -> graph -> result *)
@@ -509,4 +556,6 @@ Definition spec_pipeline (p : pipeline) (order sizes : list Z) (da db : list (Z 
   | PHistAndSum k lo hi => GT [GL (spec_hist k lo hi (concat tracks)); GZ (sumZ (concat tracks))]
   | PValues => GR vals
   | PValuesMean0 => if len (concat vals) =? 0 then GZ 0 else GSN (spec_cols vals)
+  | PValuesSum => GL (map sumZ vals)                      (* in memory: one sum per window *)
+  | PValuesSum0 => GL (map fst (spec_cols vals))          (* in memory: the column sums *)
   end.
